@@ -33,7 +33,10 @@ TimersDue ==
     + (IF run.alive /\ now >= run.exitAt /\ ~Sleeping THEN 1 ELSE 0)
     + (IF timer # -1 /\ now >= timer /\ run.alive /\ ~Sleeping THEN 1 ELSE 0)
     + (IF Delay > 0 /\ sleepUntil = now THEN 1 ELSE 0)          \* a --delay-run sleep ends
-TaskDue == (timer = -1 /\ jobq # <<>> /\ ~Sleeping) \/ waiter \in {"woken", "resetting"}
+\* the job task has something to do (on the single-threaded runtime of the driver the waiter task only
+\* gets to run when it has not)
+JobDue == (timer = -1 /\ jobq # <<>> /\ ~Sleeping) \/ (waiter = "sent" /\ ~Sleeping)
+TaskDue == JobDue \/ waiter \in {"spawned", "woken", "resetting"}
 \* the end of the command racing anything else
 Racy == TimersDue >= 2 \/ (TaskDue /\ run.alive /\ now >= run.exitAt /\ ~Sleeping)
              \/ (TaskDue /\ timer # -1 /\ now >= timer /\ run.alive /\ ~Sleeping)
@@ -56,8 +59,10 @@ RChange ==
     /\ stepAt' = now
     /\ UNCHANGED <<obs, kids, racy>>
 
+ExitDue == (run.alive /\ now >= run.exitAt /\ ~Sleeping) \/ (timer # -1 /\ now >= timer /\ run.alive /\ ~Sleeping)
 RStep ==
-    /\ (HandlerFire \/ JobStep \/ ChildExit \/ TimerFire \/ WaiterStart \/ WaiterReset)
+    /\ \/ HandlerFire \/ JobStep \/ JobToWait \/ ChildExit \/ TimerFire
+       \/ (~JobDue /\ ~ExitDue /\ (WaiterSend \/ WaiterStart \/ WaiterReset))
     /\ racy' = (racy \/ Racy)
     /\ obs' = obs \o Seen
     /\ kids' = IF hist'.spawns # hist.spawns
